@@ -76,6 +76,11 @@ type gen struct {
 	nb     bool // select the non-null field A.nb as well
 	bs2    bool // select the root field bs2 (served by a non-root service in the federated world)
 	inDef  int  // > 0 while the body of a named fragment is being generated
+	// argVars: some arguments are passed through declared variables (provided,
+	// defaulted, or explicitly null); varDecls / varVals collect them
+	argVars  bool
+	varDecls []string
+	varVals  map[string]interface{}
 	dirs   bool // the query declares $t / $f and carries @skip / @include directives
 	c      *runner.Ctx
 	w      *world
@@ -252,6 +257,9 @@ func (g *gen) genSelWith(typ string, depth int, plain bool) *qsel {
 			aliasSuffix = v
 		}
 	}
+	if g.argVars && f.arg != "" && g.c.Choose(3, "arg-by-variable") == 1 {
+		g.byVariable(s, f.arg, &aliasSuffix)
+	}
 	// an alias is a function of (field, args), so equal aliases never conflict
 	switch {
 	case aliasSuffix != "":
@@ -324,9 +332,14 @@ func (s *qset) print(sb *strings.Builder) {
 
 func (g *gen) text(root *qset, opName string) string {
 	var sb strings.Builder
+	var decls []string
+	if g.dirs {
+		decls = append(decls, "$t: Boolean", "$f: Boolean")
+	}
+	decls = append(decls, g.varDecls...)
 	switch {
-	case g.dirs:
-		sb.WriteString("query " + opName + "($t: Boolean, $f: Boolean) ")
+	case len(decls) > 0:
+		sb.WriteString("query " + opName + "(" + strings.Join(decls, ", ") + ") ")
 	case opName != "":
 		sb.WriteString("query " + opName + " ")
 	}
@@ -391,8 +404,82 @@ func flatten(set *qset, out *[]*qsel, seen map[*qset]bool) {
 	}
 }
 
+// byVariable rewrites the argument of s so that it arrives through a declared
+// variable: provided, provided over a default, defaulted, and for the nullable
+// string argument also explicitly null (which beats a default) or absent.
+func (g *gen) byVariable(s *qsel, arg string, aliasSuffix *string) {
+	name := fmt.Sprintf("v%d", len(g.varDecls))
+	if g.varVals == nil {
+		g.varVals = map[string]interface{}{}
+	}
+	g.c.Probe("argument-by-variable")
+	if arg == "p" {
+		lit := func(v string) string { return fmt.Sprintf("%q", v) }
+		cur := ""
+		if s.argS != nil {
+			cur = *s.argS
+		}
+		switch g.c.Choose(5, "variable-form") {
+		case 0: // provided (or provided null)
+			g.varDecls = append(g.varDecls, "$"+name+": string")
+			if s.argS != nil {
+				g.varVals[name] = cur
+			} else {
+				g.varVals[name] = nil
+			}
+		case 1: // defaulted
+			if s.argS == nil {
+				g.varDecls = append(g.varDecls, "$"+name+": string")
+			} else {
+				g.varDecls = append(g.varDecls, "$"+name+": string = "+lit(cur))
+			}
+		case 2: // provided over a default
+			g.varDecls = append(g.varDecls, "$"+name+": string = "+lit("r"))
+			if s.argS == nil {
+				v := "q"
+				s.argS = &v
+				cur = v
+			}
+			g.varVals[name] = cur
+		case 3: // an explicit null beats the default
+			g.varDecls = append(g.varDecls, "$"+name+": string = "+lit("q"))
+			g.varVals[name] = nil
+			s.argS = nil
+		default: // absent, no default: null
+			g.varDecls = append(g.varDecls, "$"+name+": string")
+			s.argS = nil
+		}
+		s.arg = "(p: $" + name + ")"
+		*aliasSuffix = "nil"
+		if s.argS != nil {
+			*aliasSuffix = *s.argS
+		}
+		return
+	}
+	switch g.c.Choose(3, "variable-form") {
+	case 0:
+		g.varDecls = append(g.varDecls, "$"+name+": int64")
+		g.varVals[name] = float64(s.argV) // as encoding/json decodes it
+	case 1:
+		g.varDecls = append(g.varDecls, fmt.Sprintf("$%s: int64 = %d", name, s.argV))
+	default:
+		g.varDecls = append(g.varDecls, fmt.Sprintf("$%s: int64 = %d", name, s.argV+1))
+		g.varVals[name] = float64(s.argV)
+	}
+	s.arg = fmt.Sprintf("(%s: $%s)", arg, name)
+}
+
 // dirVars are the variables the generated directives refer to.
 func dirVars() map[string]interface{} { return map[string]interface{}{"t": true, "f": false} }
+
+// vars: the variables of a generated query (directive flags plus argument variables).
+func (g *gen) vars() map[string]interface{} {
+	out := dirVars()
+	for k, v := range g.varVals {
+		out[k] = v
+	}
+	return out
+}
 
 // decorate attaches @skip / @include directives to some selections, inline
 // fragments and fragment spreads of a generated query (every node once; the
